@@ -7,6 +7,7 @@ import Driver.SpecWalk
 import Driver.LayoutOracle
 import Driver.BOracle
 import Driver.ParaOracle
+import Driver.HeapOracle
 import RosedVerif.Gem.Ref13
 namespace RosedVerif.Driver
 open RosedVerif
@@ -80,6 +81,10 @@ def oracleLine (pid kind : String) (args : List String) (go : String) : String :
   | "C06", "prog", [steps] | "C07", "prog", [steps] | "C12", "prog", [steps] | "C13", "prog", [steps] =>
     walkLayout pid steps go
   | "C11", "prog", [steps] => walkPara steps go
+  | "C19", "hist", [steps] => c19Verdict steps go
+  | "C20", "hist", [_] => c20HistVerdict go
+  | "C20", "progz", [_] => c20ProgVerdict go
+  | "C03", "rel", [rho, steps] => relVerdict rho steps go
   | "C17", "prog", [steps] => optionsVerdict steps go
   | "C17", "withdefaults", [_] => withDefaultsVerdict go
   | "C14", "prog", [steps] => walkComposite pid "twocol" steps go
